@@ -239,7 +239,7 @@ def m_deprecated_required(S, rnd):
     if iv["type"][0] != "NN":
         iv["type"] = ["NN", iv["type"]]
     iv["hasDefault"], iv["default"] = False, {"t": "null"}
-    iv["deprecation"] = "old"
+    iv["deprecation"] = rnd.choice(["old", "", "", "No longer supported"])         # the empty reason deprecates as well
     return "required-deprecated"
 
 
